@@ -24,6 +24,8 @@ for q, fi in sorted(m.funcs.items()):
     sig = alpha.signatures(fi.node)
     if len(sig) > 1 or (sig and "self" not in sig):
         out[q[len(m.pkg) + 1:]] = {n: dict(c) for n, c in sorted(sig.items())}
+        out[q[len(m.pkg) + 1:]]["__order__"] = [
+            n for n in alpha.first_occurrence_order(fi.node) if n in sig]
 out["__normaliser__"] = alpha.normaliser_digest()
 with open(os.path.join(VERIF, "reference", "locals.json"), "w") as fh:
     json.dump(out, fh, indent=0, sort_keys=True)
